@@ -4,7 +4,10 @@
 // detector (`go build -race`), which is blind under the cooperative scheduler.
 package vsync
 
-import "sync"
+import (
+	"runtime"
+	"sync"
+)
 
 type Exec struct {
 	fs []func()
@@ -29,3 +32,6 @@ func (x *Exec) Run() {
 }
 
 func DropAll() {}
+
+// Yield: in the free-running build a slow writer really yields the processor.
+func Yield() { runtime.Gosched() }
